@@ -92,6 +92,7 @@ type chanWaiter struct {
 // there are any (they keep the channel alive, so its address identifies it).
 type chanReg struct {
 	id      uintptr
+	closed  bool // closed (by instrumented code) while tasks were parked on it
 	waiters []*chanWaiter
 }
 
@@ -184,7 +185,7 @@ func Select(hasDefault bool, cases ...SelCase) (int, any, bool) {
 	for {
 		ready := readyBuf[:0]
 		for i := range cases {
-			ok, took, x, sent := s.caseReady(&cases[i])
+			ok, took, x, sent := s.caseReady(&cases[i], true)
 			if took {
 				// a receive that could only be probed by doing it (see caseReady): done
 				return i, x, sent
@@ -204,12 +205,13 @@ func Select(hasDefault bool, cases ...SelCase) (int, any, bool) {
 		if hasDefault {
 			return -1, nil, false
 		}
-		// park: leave a record on every unbuffered channel involved
+		// park: leave a record on every unbuffered channel involved (and on every channel
+		// sent to: Close marks those records)
 		t := s.cur
 		w := &chanWaiter{task: t, cases: cases}
 		for i := range cases {
 			c := &cases[i]
-			if c.ch.IsValid() && !c.ch.IsNil() && c.ch.Cap() == 0 {
+			if c.ch.IsValid() && !c.ch.IsNil() && (c.ch.Cap() == 0 || c.send) {
 				r := s.chanReg(c.ch, true)
 				r.waiters = append(r.waiters, w)
 			}
@@ -240,7 +242,7 @@ func (w *chanWaiter) ready() bool {
 	}
 	s := S
 	for i := range w.cases {
-		ok, took, x, sent := s.caseReady(&w.cases[i])
+		ok, took, x, sent := s.caseReady(&w.cases[i], false)
 		if took {
 			s.unregister(w)
 			w.k, w.val, w.ok, w.done = i, x, sent, true
@@ -262,7 +264,7 @@ func (w *chanWaiter) ready() bool {
 // is none), the operation has happened and is reported as such (took).
 //
 //go:norace
-func (s *Sim) caseReady(c *SelCase) (ok, took bool, x any, sent bool) {
+func (s *Sim) caseReady(c *SelCase, own bool) (ok, took bool, x any, sent bool) {
 	if !c.ch.IsValid() || c.ch.IsNil() {
 		return
 	}
@@ -277,8 +279,16 @@ func (s *Sim) caseReady(c *SelCase) (ok, took bool, x any, sent bool) {
 			}
 		}
 		// closed? A send on a closed channel must panic (in the sender, when it carries
-		// the case out), also when the buffer is full. The non-blocking send tells: on an
-		// open channel it does nothing here (full, or nobody parked in a real receive).
+		// the case out), also when the buffer is full. The sender itself finds out with the
+		// non-blocking send: on an open channel it does nothing here (full, or nobody parked
+		// in a real receive). While the sender is parked the scheduler asks on its behalf,
+		// from other goroutines: there the answer comes from Close having marked the record
+		// (a real send attempt from a third goroutine would be, to the race detector, a send
+		// racing with the close).
+		if !own {
+			r := s.chanReg(c.ch, false)
+			return r != nil && r.closed, false, nil, false
+		}
 		closed, sent := probeSend(c)
 		return closed || sent, sent, nil, false
 	}
@@ -410,7 +420,17 @@ func Recv2[T any](ch <-chan T) (T, bool) {
 // Close is close(ch).
 func Close[T any](ch chan<- T) {
 	Yield("close")
+	markClosed(reflect.ValueOf(ch))
 	close(ch)
+}
+
+//go:norace
+func markClosed(ch reflect.Value) {
+	if s := S; s != nil && !s.dying && ch.IsValid() && !ch.IsNil() {
+		if r := s.chanReg(ch, false); r != nil {
+			r.closed = true
+		}
+	}
 }
 
 // BlockForever is `select {}`.
